@@ -12,14 +12,12 @@ set_option linter.unusedSectionVars false
 set_option linter.unusedSimpArgs false
 set_option linter.unusedVariables false
 namespace Ft
-open StrictTotal
+open StrictTotal Arith
 
 /-! ## Part A — boxes and elements -/
 
 section
 variable {ν ε : Type} (A : Alg ν ε)
-
-theorem Res.rebox_rebox (r : Res ν ε) : r.rebox.rebox = r.rebox := by cases r <;> rfl
 
 /-- **Operator table (partial).** For every operator × operand-kind combination in
     `binSupported` (at least one operand a box or an element), the expression evaluates to a box
@@ -89,6 +87,7 @@ theorem today_elem_idiv_raises (kb : Kind) (x y : ν) : pyIop A .idiv .E kb x y 
 end
 
 /-! ### non-vacuity of Part A: an integer algebra -/
+namespace C11
 
 /-- `+ - *` and the comparisons of `Int`; `/` raising on a zero divisor (exact quotients only) -/
 def intAlg : Alg Int String where
@@ -122,57 +121,13 @@ example : pyIop intAlg .imul .E .P 12 5 = .done .same (.val 60) :=
 example : pyIop intAlg .ishl .E .S 12 5 = .done .none (.val 17) :=
   (today_elem_ilshift intAlg 12 5).2 .S 17 (by decide) rfl
 
+end C11
+
 /-! ## Part B — fibers -/
 
 section
 variable {κ ν : Type} [LT κ] [DecidableRel (α := κ) (· < ·)] [DecidableEq κ] [StrictTotal κ]
 variable [DecidableEq ν]
-
-theorem ne_of_not_isEmpty_zero (dflt : ν) (t : Tree κ ν 0) (h : isEmpty dflt 0 t = false) :
-    (show ν from t) ≠ dflt := by
-  simpa [isEmpty] using h
-
-/-- the leaf step of a fiber sum -/
-theorem addT_leaf [Add ν] (dflt : ν) (x y : ν) (q : List κ) (h : x ≠ dflt ∨ y ≠ dflt) :
-    denseAt (κ := κ) dflt 0 (addT (κ := κ) dflt 0 x y) q =
-      addExpect dflt (denseAt (κ := κ) dflt 0 x q) (denseAt (κ := κ) dflt 0 y q) := by
-  show x + y = if x ≠ dflt ∨ y ≠ dflt then x + y else dflt
-  rw [if_pos h]
-
-/-- lookup in a fiber sum: present iff presented on a side; the payload is the sum of the two
-    presented payloads, an absent side contributing the default tree -/
-theorem lookup_addT [Add ν] (dflt : ν) (d : Nat) (a b : Tree κ ν (d + 1))
-    (ha : WF (d + 1) a) (hb : WF (d + 1) b) (c : κ) :
-    lookup (show List (κ × Tree κ ν d) from addT dflt (d + 1) a b) c =
-      if (lookup (present dflt d a) c).isSome = true ∨ (lookup (present dflt d b) c).isSome = true then
-        some (addT dflt d ((lookup (present dflt d a) c).getD (dfltTree dflt d))
-                          ((lookup (present dflt d b) c).getD (dfltTree dflt d)))
-      else none := by
-  have hsa := sorted_present dflt d a ((WF_succ d a).1 ha).1
-  have hsb := sorted_present dflt d b ((WF_succ d b).1 hb).1
-  have hm := lookup_orMerge (present dflt d a) (present dflt d b) hsa hsb c
-  have hmap := lookup_map_val (orMerge (present dflt d a) (present dflt d b))
-    (fun _ (v : Mask × Option (Tree κ ν d) × Option (Tree κ ν d)) =>
-      addT dflt d (v.2.1.getD (dfltTree dflt d)) (v.2.2.getD (dfltTree dflt d))) c
-  have hdef : (show List (κ × Tree κ ν d) from addT dflt (d + 1) a b) =
-      (orMerge (present dflt d a) (present dflt d b)).map
-        (fun r => (r.1, addT dflt d (r.2.2.1.getD (dfltTree dflt d)) (r.2.2.2.getD (dfltTree dflt d)))) := by
-    rw [addT]
-  rw [hdef, hmap]
-  cases hl : lookup (orMerge (present dflt d a) (present dflt d b)) c with
-  | none =>
-    rw [hl] at hm
-    by_cases hcond : (lookup (present dflt d a) c).isSome = true ∨ (lookup (present dflt d b) c).isSome = true
-    · rw [if_pos hcond] at hm; simp at hm
-    · rw [if_neg hcond]; rfl
-  | some row =>
-    rw [hl] at hm
-    by_cases hcond : (lookup (present dflt d a) c).isSome = true ∨ (lookup (present dflt d b) c).isSome = true
-    · rw [if_pos hcond] at hm
-      rw [if_pos hcond]
-      simp only [Option.map_some, Option.some.injEq, Prod.mk.injEq] at hm
-      simp [hm.1, hm.2]
-    · rw [if_neg hcond] at hm; simp at hm
 
 /-- **Fiber + fiber is the elementwise sum over the union of coordinates** (any depth, any
     default): at every point the dense view of `a + b` is the sum of the operands' dense views
@@ -237,45 +192,6 @@ theorem fiber_add_spec [Add ν] (dflt : ν) : ∀ (d : Nat) (a b : Tree κ ν (d
           | some _ => exact absurd (Or.inr (by simp [h])) hcond
         simp [h1, h2, denseAt_dfltTree, addExpect]
 
-/-- lookup in a fiber product: present iff presented on both sides -/
-theorem lookup_mulT [Mul ν] (dflt : ν) (d : Nat) (a b : Tree κ ν (d + 1))
-    (ha : WF (d + 1) a) (hb : WF (d + 1) b) (c : κ) :
-    lookup (show List (κ × Tree κ ν d) from mulT dflt (d + 1) a b) c =
-      match lookup (present dflt d a) c, lookup (present dflt d b) c with
-      | some x, some y => some (mulT dflt d x y)
-      | _, _ => none := by
-  have hsa := sorted_present dflt d a ((WF_succ d a).1 ha).1
-  have hsb := sorted_present dflt d b ((WF_succ d b).1 hb).1
-  have hdef : (show List (κ × Tree κ ν d) from mulT dflt (d + 1) a b) =
-      (andMerge (present dflt d a) (present dflt d b)).map
-        (fun r => (r.1, mulT dflt d r.2.1 r.2.2)) := by
-    rw [mulT]
-  rw [hdef, lookup_map_val (andMerge (present dflt d a) (present dflt d b))
-    (fun _ (v : Tree κ ν d × Tree κ ν d) => mulT dflt d v.1 v.2) c,
-    lookup_andMerge _ _ hsa hsb c]
-  cases lookup (present dflt d a) c <;> cases lookup (present dflt d b) c <;> rfl
-
-/-- the leaf step of a fiber product -/
-theorem mulT_leaf [Mul ν] (dflt : ν) (x y : ν) (q : List κ) (h : x ≠ dflt ∧ y ≠ dflt) :
-    denseAt (κ := κ) dflt 0 (mulT (κ := κ) dflt 0 x y) q =
-      mulExpect dflt (denseAt (κ := κ) dflt 0 x q) (denseAt (κ := κ) dflt 0 y q) := by
-  show x * y = if x ≠ dflt ∧ y ≠ dflt then x * y else dflt
-  rw [if_pos h]
-
-theorem mulExpect_left [Mul ν] (dflt y : ν) : mulExpect dflt dflt y = dflt := by simp [mulExpect]
-theorem mulExpect_right [Mul ν] (dflt x : ν) : mulExpect dflt x dflt = dflt := by simp [mulExpect]
-
-/-- dense view under `c` when the fiber does not present `c` -/
-theorem denseAt_not_presented (dflt : ν) (d : Nat) (f : Tree κ ν (d + 1))
-    (hs : Sorted (show List (κ × Tree κ ν d) from f)) (c : κ) (q : List κ)
-    (h : lookup (present dflt d f) c = none) : denseAt dflt (d + 1) f (c :: q) = dflt := by
-  rw [← denseAt_present dflt d f hs c q, h]; simp [denseAt_dfltTree]
-
-theorem denseAt_presented (dflt : ν) (d : Nat) (f : Tree κ ν (d + 1))
-    (hs : Sorted (show List (κ × Tree κ ν d) from f)) (c : κ) (q : List κ) (t : Tree κ ν d)
-    (h : lookup (present dflt d f) c = some t) : denseAt dflt (d + 1) f (c :: q) = denseAt dflt d t q := by
-  rw [← denseAt_present dflt d f hs c q, h]; rfl
-
 /-- **Fiber * fiber is the elementwise product over the intersection of coordinates** (any
     depth, any default): the dense view of `a * b` is the product of the operands' dense views
     where both are non-default, and the default elsewhere. -/
@@ -319,86 +235,6 @@ theorem fiber_mul_spec [Mul ν] (dflt : ν) : ∀ (d : Nat) (a b : Tree κ ν (d
         | some y =>
           rw [denseAt_presented dflt (d + 1) a hsa c q x h1, denseAt_presented dflt (d + 1) b hsb c q y h2]
           exact ih x y (WF_of_lookup_present ha h1) (WF_of_lookup_present hb h2) q
-
-/-- lookup after `a += b`: untouched where `b` presents nothing; otherwise the old (or a fresh
-    default) payload updated in place, unless the populate iterator removed it again -/
-theorem lookup_iaddT [Add ν] (dflt : ν) (d : Nat) (a b : Tree κ ν (d + 1))
-    (ha : WF (d + 1) a) (hb : WF (d + 1) b) (c : κ) :
-    lookup (show List (κ × Tree κ ν d) from iaddT dflt (d + 1) a b) c =
-      match lookup (present dflt d b) c with
-      | none => lookup (show List (κ × Tree κ ν d) from a) c
-      | some vb =>
-        if removeAfter dflt d (lookup (show List (κ × Tree κ ν d) from a) c).isNone
-            (iaddT dflt d ((lookup (show List (κ × Tree κ ν d) from a) c).getD (dfltTree dflt d)) vb)
-        then none
-        else some (iaddT dflt d ((lookup (show List (κ × Tree κ ν d) from a) c).getD (dfltTree dflt d)) vb) := by
-  have hsa := ((WF_succ d a).1 ha).1
-  have hsb := sorted_present dflt d b ((WF_succ d b).1 hb).1
-  have hdef : (show List (κ × Tree κ ν d) from iaddT dflt (d + 1) a b) =
-      lshiftMerge (fun (old : Option (Tree κ ν d)) (vb : Tree κ ν d) =>
-        let v := iaddT dflt d (old.getD (dfltTree dflt d)) vb
-        if removeAfter dflt d old.isNone v then none else some v)
-      (show List (κ × Tree κ ν d) from a) (present dflt d b) := by
-    rw [iaddT]
-  rw [hdef, lookup_lshiftMerge _ _ _ hsa hsb c]
-  cases lookup (present dflt d b) c <;> rfl
-
-theorem lookup_iaddT_none [Add ν] (dflt : ν) (d : Nat) (a b : Tree κ ν (d + 1))
-    (ha : WF (d + 1) a) (hb : WF (d + 1) b) (c : κ) (h : lookup (present dflt d b) c = none) :
-    lookup (show List (κ × Tree κ ν d) from iaddT dflt (d + 1) a b) c =
-      lookup (show List (κ × Tree κ ν d) from a) c := by
-  rw [lookup_iaddT dflt d a b ha hb c, h]
-
-theorem lookup_iaddT_some [Add ν] (dflt : ν) (d : Nat) (a b : Tree κ ν (d + 1))
-    (ha : WF (d + 1) a) (hb : WF (d + 1) b) (c : κ) (vb : Tree κ ν d)
-    (h : lookup (present dflt d b) c = some vb) :
-    lookup (show List (κ × Tree κ ν d) from iaddT dflt (d + 1) a b) c =
-      if removeAfter dflt d (lookup (show List (κ × Tree κ ν d) from a) c).isNone
-          (iaddT dflt d ((lookup (show List (κ × Tree κ ν d) from a) c).getD (dfltTree dflt d)) vb)
-      then none
-      else some (iaddT dflt d ((lookup (show List (κ × Tree κ ν d) from a) c).getD (dfltTree dflt d)) vb) := by
-  rw [lookup_iaddT dflt d a b ha hb c, h]
-
-theorem denseAt_nil_fiber (dflt : ν) (d : Nat) (f : Tree κ ν (d + 1))
-    (h : (show List (κ × Tree κ ν d) from f) = []) (p : List κ) : denseAt dflt (d + 1) f p = dflt := by
-  cases p with
-  | nil => exact denseAt_nil dflt d f
-  | cons c q => rw [denseAt_cons, h]; rfl
-
-/-- dense view of the old payload (or a fresh default) under `c` -/
-theorem denseAt_getD_lookup (dflt : ν) (d : Nat) (f : Tree κ ν (d + 1)) (c : κ) (q : List κ) :
-    denseAt dflt d ((lookup (show List (κ × Tree κ ν d) from f) c).getD (dfltTree dflt d)) q =
-      denseAt dflt (d + 1) f (c :: q) := by
-  rw [denseAt_cons]
-  cases lookup (show List (κ × Tree κ ν d) from f) c with
-  | none => simp [denseAt_dfltTree]
-  | some t => rfl
-
-theorem WF_getD_lookup {dflt : ν} {d : Nat} {f : Tree κ ν (d + 1)} (h : WF (d + 1) f) (c : κ) :
-    WF d ((lookup (show List (κ × Tree κ ν d) from f) c).getD (dfltTree dflt d)) := by
-  cases hl : lookup (show List (κ × Tree κ ν d) from f) c with
-  | none => exact WF_dfltTree dflt d
-  | some t => exact WF_of_lookup h hl
-
-theorem iaddExpect_dflt [Add ν] (dflt x : ν) : iaddExpect dflt x dflt = x := by simp [iaddExpect]
-
-/-- the leaf step of `+=`: whether or not the iterator removes a leaf that ended at the
-    default, the dense value is the sum -/
-theorem iaddT_leaf [Add ν] (dflt : ν) (isNew : Bool) (x y : ν) (q : List κ) (hy : y ≠ dflt) :
-    optDense dflt 0 (if removeAfter (κ := κ) dflt 0 isNew (iaddT (κ := κ) dflt 0 x y) = true then none
-            else some (iaddT (κ := κ) dflt 0 x y) : Option (Tree κ ν 0)) q =
-      iaddExpect dflt (denseAt (κ := κ) dflt 0 x q) (denseAt (κ := κ) dflt 0 y q) := by
-  have hrhs : iaddExpect dflt (denseAt (κ := κ) dflt 0 x q) (denseAt (κ := κ) dflt 0 y q) = x + y := by
-    show (if y ≠ dflt then x + y else x) = x + y
-    rw [if_pos hy]
-  rw [hrhs]
-  by_cases h : removeAfter (κ := κ) dflt 0 isNew (iaddT (κ := κ) dflt 0 x y) = true
-  · rw [if_pos h]
-    have : x + y = dflt := by
-      have h' : decide (x + y = dflt) = true := h
-      simpa using h'
-    exact this.symm
-  · rw [if_neg h]; rfl
 
 /-- **What `a += b` does, pointwise** (any depth, any default): the right operand's value is
     added wherever the right operand is non-default; everything else is untouched. -/
@@ -470,107 +306,6 @@ theorem fiber_iadd_eq_add_partial [Add ν] (dflt : ν) (hr : ∀ x : ν, x + dfl
 
 /-! ### `*=` with a fiber -/
 
-theorem andMerge_sorted {α β : Type} (a : Fib κ α) (b : Fib κ β) (ha : Sorted a) (hb : Sorted b) :
-    Sorted (andMerge a b) := by
-  rw [and_spec a b ha hb]
-  unfold andSpec Sorted
-  refine List.Pairwise.filterMap _ ?_ ha
-  intro e e' hlt r hr r' hr'
-  cases h1 : lookup b e.1 with
-  | none => simp [h1] at hr
-  | some pb =>
-    cases h2 : lookup b e'.1 with
-    | none => simp [h2] at hr'
-    | some pb' =>
-      simp [h1] at hr; simp [h2] at hr'
-      subst hr; subst hr'
-      exact hlt
-
-theorem mem_andMerge {α β : Type} (a : Fib κ α) (b : Fib κ β) (ha : Sorted a) (hb : Sorted b)
-    (r : κ × α × β) (hr : r ∈ andMerge a b) : (r.1, r.2.1) ∈ a ∧ lookup b r.1 = some r.2.2 := by
-  rw [and_spec a b ha hb] at hr
-  unfold andSpec at hr
-  obtain ⟨e, he, hf⟩ := List.mem_filterMap.1 hr
-  cases h1 : lookup b e.1 with
-  | none => simp [h1] at hf
-  | some pb =>
-    simp [h1] at hf
-    subst hf
-    exact ⟨he, h1⟩
-
-/-- a fiber product of well-formed trees is well-formed -/
-theorem mulT_WF [Mul ν] (dflt : ν) : ∀ (d : Nat) (a b : Tree κ ν d), WF d a → WF d b →
-    WF d (mulT dflt d a b) := by
-  intro d
-  induction d with
-  | zero => intro a b _ _; simp [WF]
-  | succ d ih =>
-    intro a b ha hb
-    have hsa := sorted_present dflt d a ((WF_succ d a).1 ha).1
-    have hsb := sorted_present dflt d b ((WF_succ d b).1 hb).1
-    have hdef : (show List (κ × Tree κ ν d) from mulT dflt (d + 1) a b) =
-        (andMerge (present dflt d a) (present dflt d b)).map
-          (fun r => (r.1, mulT dflt d r.2.1 r.2.2)) := by
-      rw [mulT]
-    rw [WF_succ, hdef]
-    refine ⟨sorted_map_key _ (fun r => mulT dflt d r.2.1 r.2.2) (andMerge_sorted _ _ hsa hsb), ?_⟩
-    intro e he
-    obtain ⟨r, hr, rfl⟩ := List.mem_map.1 he
-    obtain ⟨h1, h2⟩ := mem_andMerge _ _ hsa hsb r hr
-    have hwa : WF d r.2.1 := by
-      unfold present at h1
-      exact ((WF_succ d a).1 ha).2 _ (List.mem_filter.1 h1).1
-    have hwb : WF d r.2.2 := WF_of_lookup_present hb h2
-    exact ih _ _ hwa hwb
-
-/-- `<<=` of a fiber (`nonEmpty`: a copy of the presented elements) keeps the dense view -/
-theorem denseAt_nonEmpty (dflt : ν) : ∀ (d : Nat) (t : Tree κ ν d), WF d t → ∀ p : List κ,
-    denseAt dflt d (nonEmpty dflt d t) p = denseAt dflt d t p := by
-  intro d
-  induction d with
-  | zero => intro t _ p; rfl
-  | succ d ih =>
-    intro t ht p
-    cases p with
-    | nil => rw [denseAt_nil, denseAt_nil]
-    | cons c q =>
-      have hs := ((WF_succ d t).1 ht).1
-      have hdef : (show List (κ × Tree κ ν d) from nonEmpty dflt (d + 1) t) =
-          (present dflt d t).map (fun e => (e.1, nonEmpty dflt d e.2)) := by
-        rw [nonEmpty]; rfl
-      rw [denseAt_cons', hdef,
-        lookup_map_val (present dflt d t) (fun _ (v : Tree κ ν d) => nonEmpty dflt d v) c]
-      cases hl : lookup (present dflt d t) c with
-      | none =>
-        rw [denseAt_not_presented dflt d t hs c q hl]; rfl
-      | some u =>
-        rw [denseAt_presented dflt d t hs c q u hl]
-        exact ih u (WF_of_lookup_present ht hl) q
-
-/-- lookup after `a *= b`: an element of `a` is rewritten only where both operands present the
-    coordinate; every other element of `a` is still there -/
-theorem lookup_imulT [Mul ν] (dflt : ν) (d : Nat) (a b : Tree κ ν (d + 1))
-    (ha : WF (d + 1) a) (hb : WF (d + 1) b) (c : κ) :
-    lookup (show List (κ × Tree κ ν d) from imulT dflt d a b) c =
-      match lookup (show List (κ × Tree κ ν d) from a) c with
-      | none => none
-      | some x =>
-        match lookup (present dflt d b) c with
-        | some y => some (if isEmpty dflt d x then x else nonEmpty dflt d (mulT dflt d x y))
-        | none => some x := by
-  have hsa := ((WF_succ d a).1 ha).1
-  have hsb := sorted_present dflt d b ((WF_succ d b).1 hb).1
-  have h := lookup_imulMerge
-    (fun (pa pb : Tree κ ν d) => if isEmpty dflt d pa then pa else nonEmpty dflt d (mulT dflt d pa pb))
-    (show List (κ × Tree κ ν d) from a) (present dflt d b) hsa hsb c
-  have hdef : (show List (κ × Tree κ ν d) from imulT dflt d a b) =
-      imulMerge (fun (pa pb : Tree κ ν d) => if isEmpty dflt d pa then pa else nonEmpty dflt d (mulT dflt d pa pb))
-        (show List (κ × Tree κ ν d) from a) (present dflt d b) := rfl
-  rw [hdef, h]
-  cases lookup (show List (κ × Tree κ ν d) from a) c with
-  | none => rfl
-  | some x => cases lookup (present dflt d b) c <;> rfl
-
 /-- **In-place product = value-returning product (partial).** If every coordinate `a` presents
     is also presented by `b` (`hcovB`, executable), `a *= b` leaves `a` with the dense view of `a * b` (any depth, any
     default).  Without the hypothesis it does not: `today_fiber_imul_keeps_unmatched`. -/
@@ -626,14 +361,6 @@ end
 
 section
 variable {ν : Type} [DecidableEq ν]
-
-/-- the dense view of a leaf fiber at one coordinate -/
-theorem denseAt_leaf (dflt : ν) (f : Fib Int ν) (c : Int) :
-    denseAt dflt 1 (leafFiber f) [c] = (lookup f c).getD dflt := by
-  rw [denseAt_cons']
-  have : ∀ o : Option ν, optDense (κ := Int) dflt 0 (o : Option (Tree Int ν 0)) [] = o.getD dflt := by
-    intro o; cases o <;> rfl
-  exact this _
 
 /-- **Fiber + scalar adds over the whole shape**: inside `[0, n)` every coordinate — stored or
     not — holds `s +` the operand's dense value; outside the shape the result stores nothing. -/
@@ -746,38 +473,6 @@ theorem fiber_mul_specB_sound [Mul ν] (dflt : ν) (d : Nat) (a b : Tree κ ν (
   unfold pointwiseB
   exact List.all_eq_true.2 (fun p _ => decide_eq_true (fiber_mul_spec dflt d a b ha hb p))
 
-/-- a point with a non-default dense value is one of the tree's content points -/
-theorem mem_points_of_dense_ne (dflt : ν) : ∀ (d : Nat) (t : Tree κ ν d) (p : List κ),
-    p.length = d → denseAt dflt d t p ≠ dflt → p ∈ (content dflt d t).map (·.1) := by
-  intro d
-  induction d with
-  | zero =>
-    intro t p hp hne
-    have hp' : p = [] := List.eq_nil_of_length_eq_zero hp
-    subst hp'
-    have hne' : (show ν from t) ≠ dflt := hne
-    simp [content, hne']
-  | succ d ih =>
-    intro t p hp hne
-    cases p with
-    | nil => simp at hp
-    | cons c q =>
-      rw [denseAt_cons'] at hne
-      cases hl : lookup (show List (κ × Tree κ ν d) from t) c with
-      | none => rw [hl] at hne; exact absurd rfl hne
-      | some u =>
-        rw [hl, optDense_some] at hne
-        have hq : q.length = d := by simpa using hp
-        have hmem := ih u q hq hne
-        obtain ⟨pv, hpv, hpvq⟩ := List.mem_map.1 hmem
-        have hcont : content dflt (d + 1) t =
-            (show List (κ × Tree κ ν d) from t).flatMap
-              (fun e => (content dflt d e.2).map (fun pv => (e.1 :: pv.1, pv.2))) := by
-          rw [content]
-        rw [hcont]
-        refine List.mem_map.2 ⟨(c :: pv.1, pv.2), ?_, by simp [hpvq]⟩
-        exact List.mem_flatMap.2 ⟨(c, u), mem_of_lookup hl, List.mem_map.2 ⟨pv, hpv, rfl⟩⟩
-
 /-- **The executable pointwise check decides the pointwise statement**: checking the stored
     points of the operands and of the candidate output is enough for all points (of full
     length), for any expectation that maps two defaults to the default. -/
@@ -809,6 +504,7 @@ theorem today_fiber_iadd_vs_add [Add ν] (dflt : ν) (d : Nat) (a b : Tree κ ν
 end
 
 /-! ### non-vacuity of Part B: concrete overlapping fibers satisfy every hypothesis -/
+namespace C11
 
 def exA0 : Fib Int Int := [(0, 2), (1, 3), (3, 4)]
 def exB0 : Fib Int Int := [(1, 5), (2, 6)]
@@ -875,4 +571,5 @@ example : ∀ c, denseAt (0 : Int) 1 (leafFiber (ismulF 0 5 exA0)) [c] =
     denseAt 0 1 (leafFiber (smulF 0 5 exA0)) [c] :=
   fiber_scalar_imul_eq_mul_partial 0 5 exA0 exA0_sorted (by intro v; exact Int.mul_comm 5 v)
 
+end C11
 end Ft
